@@ -137,6 +137,27 @@ def oracle(pystog, case, res):
                 case["cutoff"], "is" if case["cutoff"] in case["r"] else "is not")
         if (np.abs(np.asarray(df_rm, float) - o["dy_ft"]) > 1e-9 * (1e-300 + np.abs(o["dy_ft"]) + np.abs(np.asarray(df_rm, float)))).any():
             return "uncertainty of the removed component is not that of the transform of the [0, cutoff] signal"
+    # with the omitted-range option the removed component carries, on top of the plain one, the transform of the linear-to-zero model of the
+    # real-space signal below the first r point -- damped like the data when Lorch is on (independent Gauss-Legendre integral)
+    if case["omitted"] and keep and min(case["r"]) > 0 and sorted(case["r"]) == list(case["r"]) and not case.get("r_f32"):
+        from . import c15 as LQ
+        o_off = FL.call_filter(pystog, dict(case, omitted=False))
+        xq_ = np.array(case["q"], float)
+        with np.errstate(all="ignore"):
+            F_on = L.from_base(0, 1, xq_, L.to_base(0, Q, xq_, o["y_ft"], m), m)
+            F_off = L.from_base(0, 1, xq_, L.to_base(0, Q, xq_, np.asarray(o_off[1], float), m), m)
+        r_lo, r_hi = case["r"][keep[0]], case["r"][keep[-1]]
+        g_lo = float(L.to_base(1, R, np.array([r_lo]), np.array([case["gr"][keep[0]]], float), m)[0])
+        s0_ = 4 * math.pi * m["rho"] * g_lo + 1.0
+        want_c = np.array([math.pi / 2 * LQ.model_term(r_lo, s0_, r_hi, float(v), bool(case["lorch"])) for v in xq_])
+        tol_c = 1e-6 * (np.abs(want_c).max() + np.abs(F_on - F_off).max()) + 1e-12
+        ok_pts = np.isfinite(F_on - F_off) & (xq_ > 0)
+        if case["lorch"]:
+            ok_pts &= np.abs(np.abs(xq_) - math.pi / r_hi) > 1e-3
+        if (np.abs((F_on - F_off) - want_c)[ok_pts] > tol_c).any():
+            j_ = int(np.argmax(np.where(ok_pts, np.abs((F_on - F_off) - want_c), 0.0)))
+            return "omitted-range term of the removed component at Q=%r is %r, the integral of the linear-to-zero model below r=%r gives %r (lorch=%s)" % (
+                float(xq_[j_]), float((F_on - F_off)[j_]), r_lo, float(want_c[j_]), case["lorch"])
     # returned real-space function = transform of the returned corrected function
     tr = pystog.Transformer()
     kw = opts
